@@ -44,7 +44,7 @@ def run(ctx: core.Ctx) -> int:
     mc_viol += []
     cases = [to_case(i + 1, g, ctx.seed) for i, g in enumerate(gens + sample)]
     # 3. replay
-    events = core.pmap(projmodel.run_project_case, cases, chunksize=16)
+    events = ctx.pmap(projmodel.run_project_case, cases, chunksize=16)
     for ev in events[:: max(1, len(events) // 4)][:4]:
         ctx.samples.append({"case": json.loads(ev["label"]), "observed": ev["obs"]["files"]})
     # 4. TLC judges
